@@ -61,6 +61,17 @@ STATE_PAIRS = [('input[name="r"]:indeterminate', 'input[name="R"]:indeterminate'
                (':dir(rtl)', ':dir(ltr)'), (':in-range', ':out-of-range'), (':disabled', ':enabled'), (':read-write', ':placeholder-shown')]
 
 
+# user-written lists that are equal *by value* to lists inside the library's own definitions of the HTML-only pseudo-classes,
+# next to the pseudo-class itself (anything shared between the two evaluations must not leak from one into the other)
+SHADOW = [(':is(a, area) > *', ':link > *'), (':link > *', ':is(a, area) > *'), (':is(a, area)', ':any-link'),
+          ('*|*:is(a, area) > *|*', ':any-link > *|*'), (':is(input, textarea, select)', ':required'),
+          (':is(input, textarea, select) ~ *', ':optional ~ *'), (':is(button, input)', ':default'), (':not([required])', ':optional'),
+          (':is(input[type=checkbox], input[type=radio])', ':checked'), (':not([readonly], :disabled)', ':read-write'),
+          (':not(:disabled) > *', ':enabled > *'), (':not(:read-write)', ':read-only'), (':is(:not([name]), [name=""])', ':indeterminate'),
+          (':not(legend:nth-of-type(1)) input', ':disabled'), (':is(:not([value]), [value=""])', ':placeholder-shown'),
+          ('*|*:is(a, area)[href] *|*', '*|*:link *|*'), ('*|a:is(a, area) > *|*', '*|a:any-link > *|*')]
+
+
 def plan(tier, seed):
     n = 96 if tier == 'quick' else 1600
     per = 110 if tier == 'quick' else 300
@@ -198,6 +209,10 @@ def run_unit(u):
         A_ast, B_ast = sels.gen_complex(rng, 1, cfg), sels.gen_complex(rng, 1, cfg)
         X_ast = sels.gen_compound(rng, 0, cfg)
         A, B, X = render_complex(rng, A_ast), render_complex(rng, B_ast), render_compound(rng, X_ast)
+        if i % 6 == 5:
+            A, B = rng.choice(SHADOW)
+            X = rng.choice(['*|*', 'input', 'a', '*|a'])
+            cn['shadow_pairs'] = cn.get('shadow_pairs', 0) + 1
         docs = fixed if i % 3 else fixed + gen_docs(rng)
         for name, d in docs:
             if name.startswith('gen'):
